@@ -299,55 +299,102 @@ fn c07_q_eval_initial_value_and_empty() {
     check_top(&e, V::new(T::Generic, 9), mask);
 }
 
-/// nested calls: DW_OP_call2 answered with [lit k ; call2 ; lit] ... the caller continues after the callee ends
+/// nested calls: the caller continues after the callee ends - also when the callee's last operation is itself a call
+/// (two finished frames are popped at once).  Control is concrete; the call operands are symbolic.
 #[kani::proof]
 #[kani::unwind(10)]
-fn c07_t_eval_call_continues() {
+fn c07_q_eval_call_continues() {
     let enc = any_enc();
     let mask = mask_of(enc.address_size);
-    // main: call2 0x1234 ; lit3 ; plus          callee: lit4
-    let o: [u8; 2] = kani::any();
-    let prog = [0x98u8, o[0], o[1], 0x33, 0x22];
-    let callee = prog![0x34];
+    // main: call2 x ; lit3 ; plus      A: lit4 ; call2 y      B: lit5 ; plus        => (4 + 5) + 3 = 12
+    let o: [u8; 4] = kani::any();
+    let mut prog = prog![0x98, 0, 0, 0x33, 0x22];
+    prog[1] = o[0];
+    prog[2] = o[1];
+    let mut a = prog![0x34, 0x98, 0, 0];
+    a[2] = o[2];
+    a[3] = o[3];
+    let b = prog![0x35, 0x22];
     let mut e = new_eval(&prog, enc);
     let r = e.evaluate();
-    assert!(r == Ok(EvaluationResult::RequiresAtLocation(DieReference::UnitRef(UnitOffset(u16::from_le_bytes(o) as usize)))));
-    let r = e.resume_with_at_location(Rd::new(&callee, LittleEndian));
-    assert!(r == Ok(EvaluationResult::Complete));
-    check_top(&e, V::new(T::Generic, 7), mask);
-    // an empty callee is skipped
-    let mut e = new_eval(&prog, enc);
-    let _ = e.evaluate();
-    let r = e.resume_with_at_location(Rd::new(&callee[..0], LittleEndian));
-    assert!(r == Err(Error::NotEnoughStackItems));
+    let Ok(EvaluationResult::RequiresAtLocation(DieReference::UnitRef(UnitOffset(x)))) = r else {
+        assert!(false, "DW_OP_call2 must ask for the referenced location");
+        return;
+    };
+    let r = e.resume_with_at_location(Rd::new(&a, LittleEndian));
+    let Ok(EvaluationResult::RequiresAtLocation(DieReference::UnitRef(UnitOffset(y)))) = r else {
+        assert!(false, "nested DW_OP_call2 must ask for the referenced location");
+        return;
+    };
+    assert!(x == u16::from_le_bytes([o[0], o[1]]) as usize && y == u16::from_le_bytes([o[2], o[3]]) as usize, "call operands");
+    let r = e.resume_with_at_location(Rd::new(&b, LittleEndian));
+    let Ok(EvaluationResult::Complete) = r else {
+        assert!(false, "evaluation continues in the callers and completes");
+        return;
+    };
+    check_top(&e, V::new(T::Generic, 12), mask);
+    kani::cover!(true);
 }
 
-/// the iteration budget covers the whole evaluation, across calls and resumes
+/// an empty callee is skipped and the caller continues
 #[kani::proof]
-#[kani::unwind(12)]
-fn c07_t_eval_limit_across_calls() {
+#[kani::unwind(10)]
+fn c07_q_eval_call_empty_callee() {
     let enc = any_enc();
-    // main: call2 ; call2 ; lit1        callee: lit2 ; drop     => 3 + 2*2 = 7 operations
+    let mask = mask_of(enc.address_size);
+    let prog = prog![0x98, 0x34, 0x12, 0x33];
+    let empty = prog![0x00];
+    let mut e = new_eval(&prog, enc);
+    let r = e.evaluate();
+    let Ok(EvaluationResult::RequiresAtLocation(DieReference::UnitRef(UnitOffset(0x1234)))) = r else {
+        assert!(false, "DW_OP_call2 must ask for the referenced location");
+        return;
+    };
+    let r = e.resume_with_at_location(Rd::new(&empty[..0], LittleEndian));
+    let Ok(EvaluationResult::Complete) = r else {
+        assert!(false, "the caller continues after an empty callee");
+        return;
+    };
+    check_top(&e, V::new(T::Generic, 3), mask);
+    kani::cover!(true);
+}
+
+/// the iteration budget covers the whole evaluation, across calls and resumes.
+/// main: call2 ; call2 ; lit1        callee: lit2 ; drop     => 3 + 2*2 = 7 operations; the limit is concrete per lane
+/// (a symbolic limit forks the evaluator at every operation).
+fn limit_across_calls(limit: u32, completes: bool) {
+    let enc = any_enc();
     let prog = prog![0x98, 0, 0, 0x98, 0, 0, 0x31];
     let callee = prog![0x32, 0x13];
-    let limit: u32 = kani::any();
-    kani::assume(limit <= 8);
     let mut e = new_eval(&prog, enc);
     e.set_max_iterations(limit);
     let mut r = e.evaluate();
-    let mut k = 0;
-    while k < 2 {
-        if matches!(r, Ok(EvaluationResult::RequiresAtLocation(_))) {
-            r = e.resume_with_at_location(Rd::new(&callee, LittleEndian));
-        }
-        k += 1;
+    if let Ok(EvaluationResult::RequiresAtLocation(_)) = r {
+        r = e.resume_with_at_location(Rd::new(&callee, LittleEndian));
     }
-    if limit >= 7 {
-        assert!(r == Ok(EvaluationResult::Complete));
+    if let Ok(EvaluationResult::RequiresAtLocation(_)) = r {
+        r = e.resume_with_at_location(Rd::new(&callee, LittleEndian));
+    }
+    if completes {
+        assert!(matches!(r, Ok(EvaluationResult::Complete)), "a budget that covers all operations must not stop the evaluation");
     } else {
-        assert!(r == Err(Error::TooManyIterations), "the iteration limit must bound the whole evaluation");
+        assert!(matches!(r, Err(Error::TooManyIterations)), "the iteration limit must bound the whole evaluation");
     }
-    kani::cover!(limit == 7);
-    kani::cover!(limit == 6);
+    kani::cover!(true);
+}
+#[kani::proof]
+#[kani::unwind(12)]
+fn c07_q_eval_limit_across_calls_6() {
+    limit_across_calls(6, false);
+}
+#[kani::proof]
+#[kani::unwind(12)]
+fn c07_q_eval_limit_across_calls_7() {
+    limit_across_calls(7, true);
+}
+#[kani::proof]
+#[kani::unwind(12)]
+fn c07_t_eval_limit_across_calls_3() {
+    limit_across_calls(3, false);
 }
 
